@@ -517,7 +517,12 @@ pub fn overmount(dst: &str, over: &Over) -> Result<(u64, u64), i32> {
             )
         },
         Over::LinkTo(body) => {
-            let scratch = format!("/verif/.cache/work/c06-link-{}", std::process::id());
+            static NLINK: std::sync::atomic::AtomicUsize = std::sync::atomic::AtomicUsize::new(0);
+            let scratch = format!(
+                "/verif/.cache/work/c06-link-{}-{}",
+                std::process::id(),
+                NLINK.fetch_add(1, std::sync::atomic::Ordering::SeqCst)
+            );
             let _ = std::fs::create_dir_all("/verif/.cache/work");
             let _ = std::fs::remove_file(&scratch);
             std::os::unix::fs::symlink(body, &scratch).map_err(|e| e.raw_os_error().unwrap_or(0))?;
@@ -696,9 +701,150 @@ pub fn suite_overmount(ctx: &mut Ctx, masks: &[u32], faults: bool) {
                 unsafe { libc::umount2(c.as_ptr(), libc::MNT_DETACH) };
             }
         }
-        let _ = std::fs::remove_file(format!("/verif/.cache/work/c06-link-{}", std::process::id()));
+        cleanup_links();
     }
     let _ = Path::new("/");
+}
+
+/// C09: the core of `reopen` (`open_follow(ProcThreadSelf, "fd/<n>", flags)`, on every kind of procfs handle) while
+/// the host's /proc is over-mounted so that `fd/<n>` leads somewhere else: a file bind-mounted over the magic-link, and
+/// `/proc/thread-self` / `/proc/self` replaced by symlinks into a decoy process that has another file open under the same
+/// descriptor number.  A handle on a private procfs instance must not notice; a handle that sees the host's mounts may
+/// fail, but never return another object.
+pub fn suite_reopen_overmount(ctx: &mut Ctx) {
+    if !enter_mntns() {
+        let _ = ctx.out.write_all(b"case rom-skip\nmeta suite=reopen_overmount skipped=unshare\nop skip\nres err skip\nend\n");
+        return;
+    }
+    const N: i32 = 40;
+    let dir = format!("/verif/.cache/work/rom-{}", std::process::id());
+    let _ = fs::remove_dir_all(&dir);
+    fs::create_dir_all(&dir).expect("scratch");
+    fs::write(format!("{dir}/target"), b"target").unwrap();
+    fs::write(format!("{dir}/decoy"), b"decoy").unwrap();
+    let decoy_path: &'static str = Box::leak(format!("{dir}/decoy").into_boxed_str());
+    let t = unsafe { libc::open(cstr(&format!("{dir}/target")).as_ptr(), libc::O_PATH | libc::O_CLOEXEC) };
+    assert!(t >= 0);
+    assert_eq!(unsafe { libc::dup3(t, N, libc::O_CLOEXEC) }, N);
+    unsafe { libc::close(t) };
+    let ident = |fd: i32| {
+        let mut st: libc::stat = unsafe { std::mem::zeroed() };
+        unsafe { libc::fstat(fd, &mut st) };
+        (st.st_dev, st.st_ino)
+    };
+    let want = ident(N);
+    // the decoy process: same descriptor number, another file
+    let mut pfd = [0i32; 2];
+    unsafe { libc::pipe(pfd.as_mut_ptr()) };
+    let decoy = unsafe { libc::fork() };
+    if decoy == 0 {
+        unsafe {
+            let d = libc::open(cstr(decoy_path).as_ptr(), libc::O_RDONLY);
+            libc::dup2(d, N);
+            libc::close(pfd[0]);
+            libc::write(pfd[1], b"x".as_ptr() as *const _, 1);
+            loop {
+                libc::pause();
+            }
+        }
+    }
+    unsafe { libc::close(pfd[1]) };
+    let mut b = [0u8; 1];
+    unsafe { libc::read(pfd[0], b.as_mut_ptr() as *mut _, 1) };
+    unsafe { libc::close(pfd[0]) };
+    let decoy_ident = fs::metadata(decoy_path).map(|m| { use std::os::unix::fs::MetadataExt; (m.dev(), m.ino()) }).unwrap_or((0, 0));
+    let link_task: &'static str = Box::leak(format!("{decoy}/task/{decoy}").into_boxed_str());
+    let link_proc: &'static str = Box::leak(format!("{decoy}").into_boxed_str());
+    let fd_thread: &'static str = Box::leak(format!("/proc/thread-self/fd/{N}").into_boxed_str());
+    let fd_self: &'static str = Box::leak(format!("/proc/self/fd/{N}").into_boxed_str());
+    let layouts: Vec<(&str, Vec<(&'static str, Over)>)> = vec![
+        ("none", vec![]),
+        ("bind-on-thread-self-fd", vec![(fd_thread, Over::Bind(decoy_path))]),
+        ("bind-on-self-fd", vec![(fd_self, Over::Bind(decoy_path))]),
+        ("thread-self-into-decoy", vec![("/proc/thread-self", Over::LinkTo(link_task))]),
+        ("self-into-decoy", vec![("/proc/self", Over::LinkTo(link_proc))]),
+        ("both-into-decoy", vec![("/proc/self", Over::LinkTo(link_proc)), ("/proc/thread-self", Over::LinkTo(link_task))]),
+        ("tmpfs-on-fd-dir", vec![("/proc/thread-self/fd", Over::Tmpfs)]),
+    ];
+    let mut id = 0;
+    for (lname, mounts) in &layouts {
+        let mut placed = Vec::new();
+        for (dst, over) in mounts {
+            if overmount(dst, over).is_ok() {
+                placed.push(*dst);
+            }
+        }
+        for kind in HKind::ALL {
+            for emulated in [false, true] {
+                if !verif::openat2_is_supported() && !emulated {
+                    continue;
+                }
+                if kind == HKind::Global && emulated {
+                    continue;
+                }
+                let made = kind.make();
+                let mut owned;
+                let handle: &ProcfsHandle = match made {
+                    Ok(Some(h)) => {
+                        owned = h;
+                        verif::procfs_set_emulated(&mut owned, emulated);
+                        &owned
+                    }
+                    Ok(None) => verif::global_procfs(),
+                    Err(_) => continue,
+                };
+                for flags in [libc::O_PATH, libc::O_RDONLY | libc::O_NONBLOCK] {
+                    id += 1;
+                    run_pcase(
+                        ctx,
+                        handle,
+                        &PCase {
+                            id: format!("rom{id}"),
+                            suite: "reopen_overmount",
+                            kind,
+                            emulated,
+                            api: Api::OpenFollow,
+                            base: ProcfsBase::ProcThreadSelf,
+                            subpath: format!("fd/{N}").into_bytes(),
+                            flags,
+                            meta: format!(
+                                "layout={lname} placed={} want={}:{} decoy={}:{} visible={}",
+                                placed.len(),
+                                want.0,
+                                want.1,
+                                decoy_ident.0,
+                                decoy_ident.1,
+                                kind.sees_host_mounts() as u8
+                            ),
+                        },
+                    );
+                }
+            }
+        }
+        for dst in placed.iter().rev() {
+            unmount_top(dst);
+        }
+        cleanup_links();
+    }
+    unsafe {
+        libc::kill(decoy, libc::SIGKILL);
+        let mut st = 0;
+        libc::waitpid(decoy, &mut st, 0);
+        libc::close(N);
+    }
+    let _ = fs::remove_dir_all(&dir);
+}
+
+/// remove the scratch symlinks `overmount` bind-mounted (possible once they are unmounted)
+fn cleanup_links() {
+    let prefix = format!("c06-link-{}-", std::process::id());
+    if let Ok(rd) = std::fs::read_dir("/verif/.cache/work") {
+        for e in rd.flatten() {
+            if e.file_name().to_string_lossy().starts_with(&prefix) {
+                let _ = std::fs::remove_file(e.path());
+            }
+        }
+    }
 }
 
 fn unmount_top(dst: &str) {
@@ -812,6 +958,14 @@ pub fn suite_c08(ctx: &mut Ctx, label: &str) {
         (ProcfsBase::ProcThreadSelf, b"stat", "existing"),
         (ProcfsBase::ProcThreadSelf, b"nonexistent", "missing"),
     ];
+    // a lookup that retries itself without bound must end (with EMFILE) long before the stack does
+    unsafe {
+        let mut rl: libc::rlimit = std::mem::zeroed();
+        if libc::getrlimit(libc::RLIMIT_NOFILE, &mut rl) == 0 && rl.rlim_cur > 256 {
+            rl.rlim_cur = 256;
+            libc::setrlimit(libc::RLIMIT_NOFILE, &rl);
+        }
+    }
     let mut id = 0;
     for kind in HKind::ALL {
         for emulated in [false, true] {
@@ -959,12 +1113,39 @@ pub fn suite_reopen(ctx: &mut Ctx, seed: u64, thorough: bool) {
         libc::O_RDWR | libc::O_CREAT,
         libc::O_RDWR | libc::O_TMPFILE,
     ];
-    let histories = ["none", "rename", "replace", "unlink"];
-    let mut id = 0;
+    // "deepen": the object is moved below a directory chain so that its absolute path is longer than PATH_MAX (the
+    // kernel cannot print such a path: readlink of the fd/<n> magic-link fails with ENAMETOOLONG, the link still works)
+    let histories = ["none", "rename", "replace", "unlink", "deepen"];
+    // every way of spelling a creation request, O_PATH (with which the kernel itself would ignore the creation flags) included
+    let creation_sets: [i32; 9] = [
+        libc::O_RDWR | libc::O_CREAT,
+        libc::O_RDONLY | libc::O_EXCL,
+        libc::O_WRONLY | libc::O_CREAT | libc::O_EXCL,
+        libc::O_RDWR | libc::O_TMPFILE,
+        libc::O_WRONLY | libc::O_TMPFILE | libc::O_EXCL,
+        libc::O_PATH | libc::O_CREAT,
+        libc::O_PATH | libc::O_EXCL,
+        libc::O_PATH | libc::O_CREAT | libc::O_EXCL,
+        libc::O_PATH | libc::O_RDWR | libc::O_TMPFILE,
+    ];
+    let mut plan: Vec<(&[u8], bool, i32, &str, i32)> = Vec::new();
     for (target, nofollow) in targets {
         for &n in &fdnums {
             for history in histories {
-                let flags = *rng.pick(&flagsets);
+                if history == "deepen" && !(n == 3 || n == 0) {
+                    continue;
+                }
+                plan.push((target, nofollow, n, history, *rng.pick(&flagsets)));
+            }
+        }
+        for fl in creation_sets {
+            plan.push((target, nofollow, 3, "none", fl));
+        }
+    }
+    let mut id = 0;
+    {
+        {
+            for (target, nofollow, n, history, flags) in plan {
                 let (top, rootdir) = crate::setup_case_dir(ctx, "rcase", &spec);
                 let labels = crate::tree::Labels::of_tree(&spec, &rootdir);
                 let root = Root::open(&rootdir).expect("open root");
@@ -987,6 +1168,23 @@ pub fn suite_reopen(ctx: &mut Ctx, seed: u64, thorough: bool) {
                     }
                     "unlink" => {
                         let _ = fs::remove_file(&real).or_else(|_| fs::remove_dir_all(&real));
+                    }
+                    "deepen" => {
+                        let name = std::ffi::CString::new(vec![b'D'; 250]).unwrap();
+                        let croot = std::ffi::CString::new(rootdir.as_os_str().as_bytes()).unwrap();
+                        let mut cur = unsafe { libc::open(croot.as_ptr(), libc::O_RDONLY | libc::O_DIRECTORY | libc::O_CLOEXEC) };
+                        assert!(cur >= 0);
+                        for _ in 0..18 {
+                            unsafe { libc::mkdirat(cur, name.as_ptr(), 0o755) };
+                            let next = unsafe { libc::openat(cur, name.as_ptr(), libc::O_RDONLY | libc::O_DIRECTORY | libc::O_CLOEXEC) };
+                            assert!(next >= 0, "deepen openat");
+                            unsafe { libc::close(cur) };
+                            cur = next;
+                        }
+                        let creal = std::ffi::CString::new(real.as_os_str().as_bytes()).unwrap();
+                        let r = unsafe { libc::renameat(libc::AT_FDCWD, creal.as_ptr(), cur, b"moved\0".as_ptr() as *const _) };
+                        assert_eq!(r, 0, "deepen renameat");
+                        unsafe { libc::close(cur) };
                     }
                     _ => {}
                 }
@@ -1020,11 +1218,28 @@ pub fn suite_reopen(ctx: &mut Ctx, seed: u64, thorough: bool) {
                 s.push_str(&crate::cfg_line(&root, false, pathrs::flags::ResolverFlags::empty()));
                 s.push('\n');
                 s.push_str(&format!("handle {}\n", ops::describe_fd(n, &labels)));
+                // reference: the kernel's own re-open through the magic-link (what reopen is specified to be)
+                let creation = flags & (libc::O_CREAT | libc::O_EXCL) != 0 || flags & libc::O_TMPFILE == libc::O_TMPFILE;
+                let kref = if creation {
+                    // refused up front by the library; the raw open could block (a fifo without O_NONBLOCK) or create
+                    String::new()
+                } else {
+                    let p = cstr(&format!("/proc/self/fd/{n}"));
+                    let fd = unsafe { libc::open(p.as_ptr(), (flags & !libc::O_NOFOLLOW) | libc::O_CLOEXEC | libc::O_NOCTTY) };
+                    if fd >= 0 {
+                        let l = format!("kref ok {}\n", ops::describe_fd(fd, &labels));
+                        unsafe { libc::close(fd) };
+                        l
+                    } else {
+                        format!("kref err {}\n", std::io::Error::last_os_error().raw_os_error().unwrap_or(0))
+                    }
+                };
                 let before = ops::fd_table();
                 let href = HandleRef::from_fd(unsafe { BorrowedFd::borrow_raw(n) });
                 let (r, log) = ops::recorded(None, || href.reopen(OpenFlags::from_bits_retain(flags)));
                 let after = ops::fd_table();
                 s.push_str(&fmt::transcript(&log));
+                s.push_str(&kref);
                 let ex = match r {
                     Ok(Ok(f)) => {
                         let fd: OwnedFd = f.into();
